@@ -72,6 +72,8 @@ func HC01_sqlcrudCompiles() {
 		"type Weekday uint8\n\nconst (\n\tMon Weekday = iota\n\tTue\n)\n\ntype Weekdays []Weekday\n\ntype Small int16\n\nconst (\n\tS0 Small = iota\n\tS1\n)\n\ntype Smalls []Small\n\ntype Big int64\n\nconst (\n\tB0 Big = iota\n\tB1\n)\n\ntype Bigs []Big\n\ntype Wide uint\n\nconst W0 Wide = 0\n\ntype Wides [2]Wide\n\ntype Flags []bool\n\ntype Names []string\n\ntype Ints []int32\n\ntype Longs []int64\n\ntype Fix3 [3]int16\n\ntype Item struct {\n\tId int64\n\tDays Weekdays\n\tSs Smalls\n\tBs Bigs\n\tWs Wides\n\tF Flags\n\tN Names\n\tI Ints\n\tL Longs\n\tX Fix3\n}\n",
 		// composite columns (structs of integers) whose fields are enums backed by int, uint8, int64 and plain integers
 		"type Prio int\n\nconst (\n\tP0 Prio = iota\n\tP1\n)\n\ntype Tiny uint8\n\nconst T0 Tiny = 0\n\ntype Wide int64\n\nconst W0 Wide = 0\n\ntype Comp struct {\n\tA int\n\tP Prio\n\tT Tiny\n\tW Wide\n\tB int16\n}\n\ntype Item struct {\n\tId int64\n\tC Comp\n}\n",
+		// column types (named array, composite, JSON struct, nullable id) shared by two tables
+		"type Tags []string\n\ntype Pos struct{ X, Y int }\n\ntype Meta struct {\n\tA int\n\tS string\n}\n\ntype IdOwner int64\n\ntype OptOwner struct {\n\tValid bool\n\tId IdOwner\n}\n\ntype Owner struct {\n\tId IdOwner\n\tName string\n}\n\ntype First struct {\n\tId int64\n\tT Tags\n\tP Pos\n\tM Meta\n\tO OptOwner `gomacro-sql-foreign:\"Owner\"`\n}\n\ntype Second struct {\n\tId int64\n\tT Tags\n\tP Pos\n\tM Meta\n\tO OptOwner `gomacro-sql-foreign:\"Owner\"`\n}\n",
 	}
 	k := vfChoice("tables", len(tables))
 	imports := ""
